@@ -105,3 +105,40 @@ def isPow2 (M : Nat) : Bool := M != 0 && (M &&& (M - 1)) == 0
 def isEvenPow2 (M : Nat) : Bool := isPow2 M && (Gray.bitlen M) % 2 == 1
 
 end PyPhysim.C01
+
+/-! ### the modulator object as a state machine (PSK.setPhaseOffset replaces the table) -/
+namespace PyPhysim.C01
+section
+variable {α : Type} [Add α] [Sub α] [Mul α] [LT α] [DecidableLT α]
+
+inductive ModOp (α : Type)
+  | setTable (t : List (α × α))      -- `setConstellation` (constructor, `setPhaseOffset`)
+  | demodulate (r : α × α)
+  | modulate (i : Nat)
+
+inductive ModOut (α : Type)
+  | none
+  | index (i : Nat)
+  | symbol (p : Except PyPhysim.Proto.PyErr (α × α))
+
+/-- the object keeps nothing but the current table: no derived state can go stale -/
+def modStep (table : List (α × α)) : ModOp α → List (α × α) × ModOut α
+  | .setTable t => (t, .none)
+  | .demodulate r => (table, .index (demod table r))
+  | .modulate i => (table, .symbol (modulate table i))
+
+/-- run a history, returning the final table and the outputs -/
+def modRun (table : List (α × α)) : List (ModOp α) → List (α × α) × List (ModOut α)
+  | [] => (table, [])
+  | op :: ops =>
+    let (t', o) := modStep table op
+    let (t'', os) := modRun t' ops
+    (t'', o :: os)
+
+/-- the table in force after a history: the last one installed -/
+def currentTable (table : List (α × α)) : List (ModOp α) → List (α × α)
+  | [] => table
+  | .setTable t :: ops => currentTable t ops
+  | _ :: ops => currentTable table ops
+end
+end PyPhysim.C01
